@@ -6,7 +6,7 @@ use super::PropResult;
 use crate::core::*;
 use crate::model::calendar as cal;
 use astrolabe::errors::AstrolabeError;
-use astrolabe::{Date, DateTime, DateUtilities, TimeUtilities};
+use astrolabe::{Date, DateTime, DateUtilities};
 use serde_json::json;
 
 const WD_BC: [&str; 7] = ["weekday/BC/0", "weekday/BC/1", "weekday/BC/2", "weekday/BC/3", "weekday/BC/4", "weekday/BC/5", "weekday/BC/6"];
@@ -191,31 +191,60 @@ fn judge_setter(rec: &mut Rec, start_day: i64, doy: u32, on_datetime: bool, tod_
     let era = era(start_day);
     let api: &'static str = if on_datetime { "DateTime::set_day_of_year" } else { "Date::set_day_of_year" };
     rec.api(api);
-    let r = trap(|| {
-        if on_datetime {
-            let dt = DateTime::from_timestamp(ts_of_day(start_day)).add_nanos((tod_ns % 1_000_000_000) as u32).add_seconds((tod_ns / 1_000_000_000) as u32);
-            dt.set_day_of_year(doy).map(|x| (x.timestamp().div_euclid(86_400) + cal::DAYS_TO_1970, x.as_hms(), x.nano(), x.day_of_year()))
-        } else {
-            Date::from_timestamp(ts_of_day(start_day)).set_day_of_year(doy).map(|x| (x.timestamp() / 86_400 + cal::DAYS_TO_1970, (0, 0, 0), 0, x.day_of_year()))
-        }
-    });
+    // (1 same / 0 differs / −1 no trustworthy expected value, description, day_of_year() read back)
+    use super::diff::*;
+    use crate::model::instant::{diff_with_expected, sane_value, Diff, D as DAY_NS};
+    let tgt = target.unwrap_or(0);
+    let r = if on_datetime {
+        let Some((dt, _)) = sane_value(start_day as i128 * DAY_NS + tod_ns as i128, 0) else {
+            rec.bin(SKIP_START);
+            return;
+        };
+        trap(|| {
+            dt.set_day_of_year(doy).map(|x| {
+                let c = match diff_with_expected(&x, tgt as i128 * DAY_NS + tod_ns as i128, 0) {
+                    Ok(Diff::Same) => (1i8, String::new()),
+                    Ok(Diff::Skip) => (-1, String::new()),
+                    Ok(Diff::Differs(g, e)) => (0, format!("result reads {} but the expected value reads {}", g.to_json(), e.to_json())),
+                    Err(p) => (0, format!("unreadable: {}", p.msg)),
+                };
+                (c, x.day_of_year(), x.timestamp().div_euclid(86_400) + cal::DAYS_TO_1970)
+            })
+        })
+    } else {
+        let Some(d) = sane_date(start_day) else {
+            rec.bin(SKIP_START);
+            return;
+        };
+        trap(|| {
+            d.set_day_of_year(doy).map(|x| {
+                let c = match diff_date(&x, tgt) {
+                    Ok(DateDiff::Same) => (1i8, String::new()),
+                    Ok(DateDiff::Skip) => (-1, String::new()),
+                    Ok(DateDiff::Differs(g, e)) => (0, format!("result reads {} but the expected value reads {}", g, e)),
+                    Err(p) => (0, format!("unreadable: {}", p.msg)),
+                };
+                (c, x.day_of_year(), x.timestamp() / 86_400 + cal::DAYS_TO_1970)
+            })
+        })
+    };
     let w = |extra: serde_json::Value| {
         let s = cal::ymd(start_day);
         json!({"start": [s.0, s.1, s.2], "start_day": start_day, "set_day_of_year": doy, "on": api, "time_of_day_ns": tod_ns, "model_target_day": target, "observed": extra})
     };
     match (r, target) {
         (Err(p), _) => rec.violation(format!("C02|setter|{}|panic|{},{}", api, p.class, p.site()), || w(p.to_json())),
-        (Ok(Ok((day, hms, ns, rdoy))), Some(t)) => {
-            let exp_hms = ((tod_ns / 3_600_000_000_000) as u32, (tod_ns / 60_000_000_000 % 60) as u32, (tod_ns / 1_000_000_000 % 60) as u32);
-            if day != t {
-                rec.violation(format!("C02|setter|{}|wrong-day|era={},leap={},delta={:+}", api, era, leap_class(cal::display_year(a)), day - t), || w(json!({"day": day})));
+        (Ok(Ok(((c, why, ), rdoy, day))), Some(t)) => {
+            if c == -1 {
+                rec.bin(SKIP_EXPECTED);
+            } else if c == 0 {
+                let kind = if day != t { format!("wrong-day|era={},leap={},delta={:+}", era, leap_class(cal::display_year(a)), (day - t).clamp(-400, 400)) } else { format!("time-changed|era={}", era) };
+                rec.violation(format!("C02|setter|{}|{}", api, kind), || w(json!({"day": day, "detail": why})));
             } else if rdoy != doy {
                 rec.violation(format!("C02|setter|{}|readback-mismatch|era={}", api, era), || w(json!({"day": day, "day_of_year()": rdoy})));
-            } else if on_datetime && (hms != exp_hms || ns as u64 != tod_ns % 1_000_000_000) {
-                rec.violation(format!("C02|setter|{}|time-changed|era={}", api, era), || w(json!({"hms": [hms.0, hms.1, hms.2], "ns": ns})));
             }
         }
-        (Ok(Ok((day, _, _, _))), None) => rec.violation(format!("C02|setter|{}|accepted-invalid|{}", api, cls), || w(json!({"day": day}))),
+        (Ok(Ok((_, _, day))), None) => rec.violation(format!("C02|setter|{}|accepted-invalid|{}", api, cls), || w(json!({"day": day}))),
         (Ok(Err(e)), Some(_)) => rec.violation(format!("C02|setter|{}|refused-valid|era={},{}", api, era, cls), || w(json!({"error": e.to_string()}))),
         (Ok(Err(e)), None) => {
             if !matches!(e, AstrolabeError::OutOfRange(_)) {
@@ -243,16 +272,31 @@ fn judge_setter_with_offset(rec: &mut Rec, i: i128, off: i32, doy: u32) {
             return;
         }
     }
-    let r = trap(|| mk_off(i, off).set_day_of_year(doy).map(|x| (read(&x), x.year(), x.day_of_year())));
+    let Some((start, _)) = sane_value(i, off) else {
+        rec.bin(super::diff::SKIP_START);
+        return;
+    };
+    let want_i = exp.map(|l| l - off as i128 * NS).unwrap_or(0);
+    let r = trap(|| {
+        start.set_day_of_year(doy).map(|x| {
+            let c: i8 = match diff_with_expected(&x, want_i, off) {
+                Ok(Diff::Same) => 1,
+                Ok(Diff::Skip) => -1,
+                _ => 0,
+            };
+            (c, read(&x), x.year(), x.day_of_year())
+        })
+    });
     let wit = |obs: serde_json::Value| json!({"start_utc": show(i), "offset": off, "start_local": show(local), "set_day_of_year": doy, "model_local_result": exp.map(show).map_err(|_| "must be refused"), "observed": obs});
     match (r, exp) {
         (Err(p), _) => rec.violation(format!("C02|setter-offset|DateTime::set_day_of_year|panic|{},{}", p.class, p.site()), || wit(p.to_json())),
-        (Ok(Ok((got, y, d))), Ok(l)) => {
-            if got != l - off as i128 * NS || y as i64 != fields(l).year || d != doy {
+        (Ok(Ok((-1, _, _, _))), Ok(_)) => rec.bin(super::diff::SKIP_EXPECTED),
+        (Ok(Ok((c, got, y, d))), Ok(_)) => {
+            if c == 0 || d != doy {
                 rec.violation(format!("C02|setter-offset|DateTime::set_day_of_year|wrong-day|{}", if same_year { "local-year=utc-year" } else { "local-year≠utc-year" }), || wit(json!({"result_local": show(got + off as i128 * NS), "year()": y, "day_of_year()": d})));
             }
         }
-        (Ok(Ok((got, _, _))), Err(())) => rec.violation("C02|setter-offset|DateTime::set_day_of_year|accepted-invalid".to_string(), || wit(json!({"result_local": show(got + off as i128 * NS)}))),
+        (Ok(Ok((_, got, _, _))), Err(())) => rec.violation("C02|setter-offset|DateTime::set_day_of_year|accepted-invalid".to_string(), || wit(json!({"result_local": show(got + off as i128 * NS)}))),
         (Ok(Err(e)), Ok(_)) => rec.violation("C02|setter-offset|DateTime::set_day_of_year|refused-valid".to_string(), || wit(json!({"error": e.to_string()}))),
         (Ok(Err(_)), Err(())) => {}
     }
